@@ -515,7 +515,12 @@ where
                                 })))
                             });
 
-                        if attr_name == "ref" {
+                        let is_transform_on = self.options.transform_on
+                            && (attr_name == "on" || attr_name == "nativeOn");
+                        if is_transform_on {
+                            // the listeners are merged from an object: a full props diff is needed
+                            has_dynamic_keys = true;
+                        } else if attr_name == "ref" {
                             has_ref = true;
                         } else if !jsx_attr
                             .value
@@ -542,9 +547,7 @@ where
                             }
                         }
 
-                        if self.options.transform_on
-                            && (attr_name == "on" || attr_name == "nativeOn")
-                        {
+                        if is_transform_on {
                             if !props.is_empty() && self.options.merge_props {
                                 // keep source order: earlier attributes are merged first
                                 merge_args.push(Expr::Object(ObjectLit {
